@@ -112,13 +112,8 @@ static inline const char *path_last_node(const char *path)
 {
     const char *it = path + strlen(path);
 
-    do
-    {
+    while (it != path && *(it - 1) != '\\')
         --it;
-    } while (*it != '\\' && it != path);
-
-    if (*it == '\\')
-        it++;
 
     return it;
 }
